@@ -62,6 +62,12 @@ def gen_cases(rng, tier):
     for f in ("max", "Min", "mod", "ceil", "floor", "sum", "prod", "log2", "sqrt", "abs", "round", "exp", "sin", "gamma", "multiplicity"):
         for pre in ("lib.", "a.b."):
             texts += [f"{pre}{f}(x, y)", f"{pre}{f}(x) + 1", f"2 * {pre}{f}(y, 3) - x"]
+    # unknown functions whose names end in, begin with or contain the spelling of an internal marker of the parser (ports are
+    # rewritten to calls of `Port`, wildcards to `wildcard`, reserved words to `__lambda__` / `__in__`): ordinary names
+    for f in ("NumPort", "ViewPort", "Transport", "OutPort", "Portal", "Ports", "PortX", "teleport", "Port2", "myPort", "xwildcard",
+              "wildcards", "lambda_f", "f_lambda", "in_f", "f_in"):
+        for pre in ("", "lib.", "a.b."):
+            texts += [f"{pre}{f}(x)", f"{pre}{f}(x + 1, y) * 2", f"1 + {pre}{f}(3)"]
     # strings that are nothing but one integer literal, beyond what a double holds exactly
     texts += ["9007199254740993", "18446744073709551615", "1000000000000000000000001", "-9007199254740993", "(9007199254740993)",
               "9007199254740993 + 0", "123456789012345678901234567890", "4", "-7", "+5"]
